@@ -1243,6 +1243,28 @@ func partL(keys []string) (infra string) {
 					if variant == 0 {
 						compare(r, members, desc+" once online")
 					}
+					// the ring a dispatcher may already hold must not change under it: its answers are
+					// recorded before the change and asked again afterwards
+					heldRing := route.VerifHasher(r)
+					heldAns := make([]int, len(keys))
+					for i, k := range keys {
+						heldAns[i] = heldRing.GetDestinationIndex([]byte(k))
+					}
+					checkHeld := func(what string) {
+						for i, k := range keys {
+							got, pan := func() (g int, p interface{}) {
+								defer func() { p = recover() }()
+								return heldRing.GetDestinationIndex([]byte(k)), nil
+							}()
+							if pan != nil || got != heldAns[i] {
+								order++
+								coll.add(bad{order, "live-held", fmt.Sprintf("live held ring %s key %s", what, k),
+									fmt.Sprintf("connected destinations, %s: the ring published before the change now answers %v (panic %v) for key %q, it answered %d before: a ring that dispatchers may hold was modified in place", what, got, pan, k, heldAns[i]),
+									map[string]interface{}{"part": "L", "case": what, "key": k}})
+								return
+							}
+						}
+					}
 					if variant > n {
 						j := variant - n - 1
 						if err := r.UpdateDestination(j, map[string]string{"addr": addr(4)}); err != nil {
@@ -1253,12 +1275,14 @@ func partL(keys []string) (infra string) {
 						}
 						members[j] = 4
 						compare(r, members, fmt.Sprintf("%s after UpdateDestination(%d, addr=<second endpoint>:z)", desc, j))
+						checkHeld(fmt.Sprintf("%s after UpdateDestination(%d)", desc, j))
 					} else if variant < n {
 						if err := r.DelDestination(variant); err != nil {
 							panic(err)
 						}
 						members = append(members[:variant:variant], members[variant+1:]...)
 						compare(r, members, fmt.Sprintf("%s after DelDestination(%d)", desc, variant))
+						checkHeld(fmt.Sprintf("%s after DelDestination(%d)", desc, variant))
 					} else {
 						left := -1
 						for c := 0; c < 4 && left < 0; c++ {
@@ -1277,6 +1301,7 @@ func partL(keys []string) (infra string) {
 							return "part L: a destination did not come online on loopback within 60 s"
 						}
 						compare(r, members, fmt.Sprintf("%s after Add(%s)", desc, node(left)))
+						checkHeld(fmt.Sprintf("%s after Add(%s)", desc, node(left)))
 					}
 					r.Shutdown()
 				}
